@@ -63,6 +63,35 @@ def confirm(prop, ab, src):
         print(json.dumps({k: meta.get(k) for k in ('seed_id', 'confirmed', 'patch_applies', 'demo_without_change_exit', 'demo_with_change_exit', 'test_suite_with_change')}))
 
 
+def run_scratch(sid, tier='quick', props=None):
+    """same as run(), but against a scratch copy of the package selected with SCMO_ROOT (used while /repo must stay untouched)"""
+    dst = os.path.join(VERIF, 'seeded', sid)
+    mp = os.path.join(dst, 'meta.json')
+    meta = json.load(open(mp))
+    props = props or [meta['property']]
+    d = tempfile.mkdtemp(prefix='scmo-seed-')
+    try:
+        sh(['git', '-C', '/repo', 'worktree', 'add', '-q', '--detach', os.path.join(d, 'wt'), 'HEAD'])
+        wt = os.path.join(d, 'wt')
+        r = sh(['git', '-C', wt, 'apply', os.path.join(dst, 'patch.diff')])
+        assert r.returncode == 0, r.stderr
+        for prop in props:
+            t = time.time()
+            env = dict(os.environ, VERIF_NO_EVIDENCE='1', SCMO_ROOT=wt)
+            c = sh([PY, os.path.join(VERIF, 'check.py'), prop, '--tier', tier], env=env, timeout=7200)
+            out = c.stdout + c.stderr
+            verdict = {0: 'MISSED', 1: 'DETECTED', 2: 'HARNESS-ERROR'}.get(c.returncode, f'exit{c.returncode}')
+            lines = out.splitlines()
+            first = next((l for l in lines if l.startswith('  class=')), '')
+            meta.setdefault('checks', {})[f'{prop}/{tier}'] = {'verdict': verdict, 'seconds': round(time.time() - t, 1), 'first_violation': first[:400],
+                                                              'summary': lines[-1][:300] if lines else '', 'how': 'scratch worktree + SCMO_ROOT'}
+            print(sid, prop, tier, verdict, f'{time.time() - t:.0f}s', first[:200] or (lines[-1][:200] if lines else ''))
+    finally:
+        sh(['git', '-C', '/repo', 'worktree', 'remove', '--force', os.path.join(d, 'wt')])
+        shutil.rmtree(d, ignore_errors=True)
+        json.dump(meta, open(mp, 'w'), indent=1)
+
+
 def run(sid, tier='quick', props=None):
     dst = os.path.join(VERIF, 'seeded', sid)
     mp = os.path.join(dst, 'meta.json')
@@ -92,6 +121,9 @@ def run(sid, tier='quick', props=None):
 if __name__ == '__main__':
     if sys.argv[1] == 'confirm':
         confirm(sys.argv[2], sys.argv[3], sys.argv[4])
+    elif sys.argv[1] == 'run-scratch':
+        props = sys.argv[sys.argv.index('--props') + 1].split(',') if '--props' in sys.argv else None
+        run_scratch(sys.argv[2], 'quick', props)
     elif sys.argv[1] == 'run':
         tier = 'quick'
         if '--tier' in sys.argv:
